@@ -244,9 +244,9 @@ const exhaustiveCases = 256
 
 func cases(tier string) int {
 	if tier == "thorough" {
-		return 15000000
+		return 6000000
 	}
-	return 60000
+	return 40000
 }
 
 func run(c *core.Case) {
@@ -265,6 +265,12 @@ func run(c *core.Case) {
 				check(c, append(bytes.Repeat([]byte{'a'}, 126), '\\', b1, byte(b2), '\\', '5', 'c'), true)
 			}
 		}
+		return
+	}
+	// one case in thirty drives the shared package-level transformers from
+	// several goroutines at once (concurrent.go)
+	if c.Rand.Intn(30) == 0 {
+		concurrentCase(c)
 		return
 	}
 	check(c, gen(c.Rand), false)
@@ -357,6 +363,19 @@ func check(c *core.Case, in []byte, exhaustive bool) {
 			if !bytes.Equal(refPrefix, in[:n]) {
 				c.Violate("esc:span:"+dir+":prefix", "%s.Span(%s,%v) = %d but that prefix is changed by the transform", dir, q(in), atEOF, n)
 			}
+			if !esc && !atEOF {
+				// not at the end of the input: whatever follows, the prefix must
+				// still come out unchanged (a backslash at the very end may begin a
+				// sequence that the next chunk completes)
+				for _, tail := range []string{"20", "2F", "0", "c", "5c", "\\40", "x"} {
+					c.Count("span_continuations", 1)
+					full := refUnescape(append(append([]byte(nil), in...), tail...))
+					if len(full) < n || !bytes.Equal(full[:n], in[:n]) {
+						c.Violate("esc:span:"+dir+":prefix-changed-by-continuation", "%s.Span(%s,false) = %d, %v but when %q follows the input decodes to %q: the spanned prefix is not final (Transform leaves the trailing backslash unconsumed with ErrShortSrc)", dir, q(in), n, err, tail, full)
+						break
+					}
+				}
+			}
 			if err == nil && n != len(in) {
 				c.Violate("esc:span:"+dir+":short", "%s.Span(%s,%v) = %d,nil but input has %d bytes", dir, q(in), atEOF, n, len(in))
 			}
@@ -439,7 +458,7 @@ func check(c *core.Case, in []byte, exhaustive bool) {
 		}
 
 		// x/text reader and writer adapters
-		if len(in) < 600 {
+		if len(in) < 600 && !(exhaustive && len(in) == 3) {
 			var rd []byte
 			var rerr error
 			if !c.Guard(dir+".NewReader", func() {
@@ -502,16 +521,22 @@ func sortInts(a []int) {
 // Prop returns the C16 check.
 func Prop() *core.Prop {
 	return &core.Prop{
-		ID:    "C16",
-		Level: core.Exploration,
-		Units: "inputs",
-		Rule:  "256 cases spread evenly over the index range enumerate all 65536 two-byte continuations of a backslash (bare, embedded in text, and a sample behind other sequences / across offset 128) with every single cut position; the other inputs are PRNG byte strings over escapable characters, backslash/hex sequences (valid, near-valid, both hex cases), invalid UTF-8 and filler, lengths 0-4120 with special material forced at offsets 2,3,127,128,4095,4096; each input goes through String, Bytes, Span (atEOF both ways), Transform under 2-6 (source split, destination capacity) pairs, transform.NewReader and NewWriter, in both directions. A case is non-trivial when the transform changes the input; distinct = distinct (direction, input) among those.",
+		ID:            "C16",
+		Level:         core.Exploration,
+		Race:          true,
+		ReplayRepeats: 20,
+		Units:         "inputs",
+		Rule:          "256 cases spread evenly over the index range enumerate all 65536 two-byte continuations of a backslash (bare, embedded in text, and a sample behind other sequences / across offset 128) with every single cut position; the other inputs are PRNG byte strings over escapable characters, backslash/hex sequences (valid, near-valid, both hex cases), invalid UTF-8 and filler, lengths 0-4120 with special material forced at offsets 2,3,127,128,4095,4096; each input goes through String, Bytes, Span (atEOF both ways), Transform under 2-6 (source split, destination capacity) pairs, transform.NewReader and NewWriter, in both directions. A case is non-trivial when the transform changes the input; distinct = distinct (direction, input) among those.",
 		Assumptions: []string{
 			"the 15-line reference implementation of XEP-0106 in props/c16 is correct",
 			"a destination smaller than one output unit (3 bytes for Escape) may legitimately never progress; such drives are counted, not judged",
 		},
-		Cases:   cases,
-		Run:     run,
-		Require: []string{"inputs_changed_by_transform", "special_beyond_offset_2", "longer_than_128", "capacity_below_3", "split_sources", "reader_runs", "writer_runs", "roundtrips", "exhaustive_two_byte_continuations"},
+		Cases: cases,
+		Witnesses: map[string]func(*core.Case){
+			"esc:span:unesc:prefix-changed-by-continuation": func(c *core.Case) { check(c, []byte("a\\\\"), false) },
+		},
+		Run: run,
+		Require: []string{"inputs_changed_by_transform", "special_beyond_offset_2", "longer_than_128", "capacity_below_3", "split_sources", "reader_runs", "writer_runs", "roundtrips", "exhaustive_two_byte_continuations", "span_continuations",
+			"concurrent_cases", "concurrent_operations", "concurrent_cases_with_overlapping_goroutines", "concurrent_cases_with_4_or_more_goroutines_at_once", "concurrent_cases_with_gomaxprocs_ge_4"},
 	}
 }
